@@ -9,6 +9,8 @@ import (
 	"encoding/base64"
 	"go/types"
 	"math"
+	"mime"
+	"sort"
 	"strconv"
 
 	"golang.org/x/tools/go/ssa"
@@ -148,5 +150,23 @@ func registerNumParse(e *Engine) {
 		th.st.ghost["parseform.fails"] = a[0]
 		return nil
 	}
+	reg("mime.ParseMediaType", func(th *Thread, fn *ssa.Function, a []Value) Value {
+		v := strArg(th, a[0])
+		mt, params, err := mime.ParseMediaType(v)
+		m := &MapVal{}
+		var keys []string
+		for k := range params {
+			keys = append(keys, k)
+		}
+		sort.Strings(keys)
+		for _, k := range keys {
+			m.keys = append(m.keys, concreteStr(k))
+			m.vals = append(m.vals, concreteStr(params[k]))
+		}
+		if err != nil {
+			return Tuple{concreteStr(mt), m, mkErrorValue(th, "mime: "+err.Error())}
+		}
+		return Tuple{concreteStr(mt), m, nilError()}
+	})
 	_ = types.Typ
 }
